@@ -95,6 +95,9 @@ def execute(req):
                 out = abel.Transform(im, **kw).transform
                 if m == "rbasex" and req["out"] in ("fold", "full-unique"):
                     return "unclear"      # quadrant-shaped output: accepted, direction not classified here
+                if req["origin"] not in (None, "com") or min(np.shape(out)) < 5:
+                    return "unclear"      # re-centred about a point that is not the Gaussian's centre, or too small a frame:
+                                          # accepted; the amplitude test (which assumes a centred Gaussian) does not apply
                 src = im if req["origin"] is None else abel.Transform(
                     im, method="hansenlaw", origin=req["origin"], center_options=dict(crop=req["crop"])).IM
                 cls = classify(out, src, True)
@@ -203,6 +206,17 @@ def table(tier):
     return reqs
 
 
+def centring_keeps_class(req):
+    """the dispatch model classifies a request by the shape it is given; an explicit origin / crop that moves the frame so far
+    that the centred image falls into another shape class (e.g. `valid_region` about (4, 4) of a 5-column image leaves one
+    column) is outside that abstraction, so such requests are not generated"""
+    if not req["via"] or req["origin"] in (None, "bogus"):
+        return True
+    if req["method"] == "linbasex" and (req["rows"] != req["cols"] or req["cols"] % 2 == 0):
+        return False          # cropping about the origin can turn the frame into the odd square linbasex wants
+    return req["rows"] >= 9 and req["cols"] >= 9
+
+
 def admissible_mask(req):
     """symmetry_axis=None with a partial mask is rejected by get_image_quadrants (C06) — outside this model's
     `anyQuadrant` flag, so such requests are given all-or-nothing masks only"""
@@ -227,7 +241,7 @@ def run(tier):
          "abel/rbasex.py", "abel/basex.py", "abel/hansenlaw.py", "abel/direct.py"])
     ck.proofs("PyAbel.Props.C20")
     ok, log = ensure_driver()
-    reqs = [r for r in table(tier) if admissible_mask(r)]
+    reqs = [r for r in table(tier) if admissible_mask(r) and centring_keeps_class(r)]
     replies = drive([model_line(r) for r in reqs]) if ok else [None] * len(reqs)
     if not ok:
         ck.broken.append(dict(kind="proof", module="pyabel_drv", why="driver build failed", log=log[-1500:]))
@@ -282,7 +296,8 @@ def run(tier):
         elif req["method"] in ("two_point", "three_point") and not req["via"] and not req["oneD"] and d == "inverse" \
                 and req["cols"] < (2 if req["method"] == "two_point" else 3) and got != "raise":
             ck.violation(dict(sig, clause="dasch-too-narrow"), show, f"{req['method']} accepted a {req['cols']}-column half-image")
-        elif req["method"] == "linbasex" and (req["rows"] != req["cols"] or req["cols"] % 2 == 0) and got != "raise":
+        elif req["method"] == "linbasex" and (req["rows"] != req["cols"] or req["cols"] % 2 == 0) and got != "raise" \
+                and not (req["via"] and req["origin"] is not None):      # (centring may crop the frame to an odd square)
             ck.violation(dict(sig, clause="linbasex-shape"), show, "non-square / even image accepted by linbasex")
         if len(ck.cov["samples"]) < 5 and got != "raise":
             ck.sample(dict(request=show, outcome=got))
